@@ -70,7 +70,7 @@ func historyCase(e *core.Env, w *world, ci int, r *core.RNG) {
 		names[k] = fmt.Sprintf("h%d-n%d-s%d.c17.test", ci, k, e.Seed)
 	}
 	model := &lruModel{cap: capacity}
-	evicted := map[string]bool{}
+	evicted := map[string]*entry{}
 	t0 := vtime.Now()
 	var trace []histOp
 	c := &caseCtx{w: w, e: e, sub: "history", ci: ci, desc: map[string]any{"capacity": capacity, "names": names}}
@@ -177,7 +177,7 @@ func historyCase(e *core.Env, w *world, ci int, r *core.RNG) {
 		}
 		switch {
 		case expect == "miss" && asked == 0:
-			if evicted[name] {
+			if evicted[name] != nil {
 				c.viol("evicted_entry_served", out, "capacity %d: %s was the least recently used entry when a new name was stored, yet Lookup(%s) was answered (%s) without asking upstream", capacity, name, name, ho.Result)
 			} else {
 				c.viol("answer_without_asking", out, "Lookup(%s) was answered (%s) without asking upstream although nothing can be cached for it", name, ho.Result)
@@ -188,8 +188,9 @@ func historyCase(e *core.Env, w *world, ci int, r *core.RNG) {
 				name, t.Sub(t0), en.stored.Sub(t0), en.lt.lo.Sub(t0), capacity, model.names())
 			return
 		case expect == "expired" && asked == 0:
-			c.viol("expired_entry_served_without_asking", out, "Lookup(%s) at %v was served from the cache (%s) without asking upstream although the cached lifetime ended at %v at the latest",
-				name, t.Sub(t0), ho.Result, en.lt.hi.Sub(t0))
+			kind, extra := en.lt.expiredKind()
+			c.viol(kind, out, "Lookup(%s) at %v was served from the cache (%s) without asking upstream although the cached lifetime ended at %v at the latest%s",
+				name, t.Sub(t0), ho.Result, en.lt.hi.Sub(t0), extra)
 			return
 		}
 		if asked == 0 {
@@ -204,6 +205,10 @@ func historyCase(e *core.Env, w *world, ci int, r *core.RNG) {
 			tr.Model = model.names()
 			continue
 		}
+		if old := evicted[name]; en == nil && old != nil && out.Err == nil && len(old.a)+len(old.aaaa) > 0 && sameAddrs(out.A, old.a) && sameAddrs(out.AAAA, old.aaaa) {
+			c.viol("evicted_entry_served", out, "capacity %d: the entry of %s was the least recently used one when a new name was stored (model LRU order now %v), yet Lookup(%s) returned exactly that old result %s", capacity, name, model.names(), name, ho.Result)
+			return
+		}
 		f := c.checkAsked(name, out, en)
 		if !f.ok {
 			return
@@ -214,8 +219,8 @@ func historyCase(e *core.Env, w *world, ci int, r *core.RNG) {
 		}
 		switch {
 		case f.entry != nil:
-			if ev := model.store(f.entry); ev != "" {
-				evicted[ev] = true
+			if ev := model.store(f.entry); ev != nil {
+				evicted[ev.name] = ev
 				feats["evict"] = true
 				what += "+evict"
 			}
